@@ -405,9 +405,11 @@ INT64 = (" Go's int64 arithmetic: Model/Ops64.v redoes the operation's arithmeti
          "library's arithmetic inside that range; outside it a computed witness shows the two differ (%s); the 64-bit model is "
          "what the harness runs on values near +-2^63 (families *.huge), wrapped results included.")
 ADDENDA = {
-    "C01": (" The model's time separator and byte order mark are proved equal to the named constants of the Go source regenerated "
+    "C01": (" The round trip through the REAL reader's buffer: C01_write_read_within_limit / _exact_limit compose the writer with the limit-aware reader for every buffer size and delivery schedule (every written line below the limit: same cues; C01_real_line_bound: 65535 bytes read back, 65536 refused - replayed on the library at 65533..65537 bytes with LF, CR LF, CR and unterminated lines); the five vacuous nat-subtraction panic sites of the checked model are now Go's l[:len(l)-1] and C08_srt_guards_load_bearing shows the guards are needed."
+            " The model's time separator and byte order mark are proved equal to the named constants of the Go source regenerated "
             "on every run (C01_constants_from_source, tools/genconsts; literals inside function bodies are deliberately not tied).", ""),
-    "C02": (" The timestamp-map header, the time separator and the default style id are proved equal to the named constants of the "
+    "C02": (" The writer is modelled over the map KEYS (C02_writer_keyed_maps: keys differing from the identifiers, nil values, two keys with one identifier - the model was stale after an earlier repair and the second audit noticed; suiteVttKeyed sends the maps by key and states 'a referenced region is defined earlier' on the written bytes); C02_write_read_within_limit / C02_real_line_bound as for C01."
+            " The timestamp-map header, the time separator and the default style id are proved equal to the named constants of the "
             "Go source regenerated on every run (C02_constants_from_source).", ""),
     "C03": (" A line break inside a start tag of a paragraph's content (between the element name and an attribute, or between "
             "attributes) is one of the renderings (C03_read_rendered_bytes_go; found false of the library by the second audit and "
@@ -417,7 +419,8 @@ ADDENDA = {
             "of the Go source regenerated on every run (C03_constants_from_source).",
             " There is no C03_write_is_rendering: the rendering skeleton always has the three head sections, the writer omits "
             "empty ones (C03.v comment); the writer's output is covered by C03_write_read_bytes_go and the independent decoder."),
-    "C04": (" The 25 style column names, 15 script-info keys, 11 event column names and the Dialogue category are "
+    "C04": (" C04_write_read_within_limit / C04_rewrite_within_limit / C04_real_line_bound as for C01; eight instance theorems became Examples; all four callback combinations run on the Go side too."
+            " The 25 style column names, 15 script-info keys, 11 event column names and the Dialogue category are "
             "proved equal to the named constants of the Go source regenerated on every run (C04_constants_from_source); event style "
             "names the styles section does not declare are generated (the cue then has no style reference).", ""),
     "C05": (" The writer's bytes are one of the renderings of the reading theorem, for open subtitling and for teletext rows with "
@@ -425,12 +428,14 @@ ADDENDA = {
             "covers the library's own output.",
             " Outside the proviso (recorded as observations, model = library on 75 pinned cases): code points outside the "
             "repertoire are written by their low byte and a row longer than 112 bytes is cut."),
-    "C07": (" Styled sources: for every source format a Gallina model of what each destination writer sees of the source reader's "
+    "C07": (" Styled pairs into WebVTT, SSA/ASS and SubRip: ssa->vtt (the event's Name as a voice tag), vtt->ssa (last voice as Name, STYLE block as a styles row), ttml->vtt (regions with origin/extent mapped, per-cue settings, the five class colours), ttml->ssa (title, every style as a Style row, the cue's style), stl/ttml/ssa->srt (nothing but times and text): a theorem per pair on the writer's normal form (adjacent runs merged; *_merged_bytes / *_norm_bytes show the library's bytes are those of the normal form) and byte comparison on styled and hard-text documents. Two library defects found and repaired there: a comma in a WebVTT voice name made the converted SSA file unreadable (c8994f7), a '>' in an SSA speaker name moved text into the WebVTT cue (6c5c236)."
+            " Styled sources: for every source format a Gallina model of what each destination writer sees of the source reader's "
             "cues (Model/ConvTtml.v, ConvStl.v, ConvStlVtt.v, ConvStlTtml.v, ConvTtx.v) with a theorem per pair that the "
             "destination decodes to the source's plain view, the destination bytes compared with the library's on styled "
             "documents; XML-illegal runes into TTML follow encoding/xml's substitution (write_ttml_bytes_go); conversion sources "
             "carry programme titles up to 70 bytes with multi-byte characters and SSA events naming undeclared styles.", ""),
-    "C08": (" nil *Item elements of the cue list are skipped by all five writers: the STL and TTML checked writers go through "
+    "C08": (" C08_srt/vtt/dur_guards_load_bearing: guard-dropped variants of real model functions panic (most replayed on a copy of the library with that guard deleted); VttC sites 659-714 are explicit index loops proved equal to the structural functions."
+            " nil *Item elements of the cue list are skipped by all five writers: the STL and TTML checked writers go through "
             "Kit.Chk.somes like the SubRip/WebVTT/SSA ones (C08_stl_writer_total_nil_items, C08_ttml_writer_total_nil_items) and "
             "the harness passes lists with nil elements to the models.", ""),
     "C09": (INT64 % ("C09_int64", "C09_int64_wraps: Add(10) on a cue ending at MaxInt64-5"), ""),
